@@ -323,7 +323,9 @@ def run(pr, repo):
                                                            (C11.task_cell_lemma, ()), (C11.task_boxes_pair, ('S', 'S', False, (0,))), (task_summary_rows, ()),
                                                            # 'in every conformation ... nothing that is not in the structure': completing a
                                                            # conformation never merges two residue types at one position (C08-TU)
-                                                           (C08.task_topup, ())]
+                                                           (C08.task_topup, ()),
+                                                           # rows are printed chain by chain: every atom's chain is registered (C02-CH)
+                                                           (C02.task_add_atom, ())]
     pr.parallel(tasks)
     pr.assumptions += ['stutter/simulation rule lifts the per-record automaton to whole files; atom-name classes as listed in '
                        'props/reader.py', 'composition step "nothing else is reported" (bounded census monitor)',
